@@ -77,3 +77,37 @@ func init() {
 		Assumptions: []string{"Postgres backend not executed: no server in the sandbox"},
 	})
 }
+
+var sysRealStub = map[string]string{
+	"config.Parse/Compile, app.newRuntimeState/loadAuth/startServers/reloadConfig, ingress.Server + authenticators, pullapi/admin handlers, queue store": "real (node assembled by app.VerifNewNode from generated Hookaidofile text)",
+	"run() glue (flags, signals, pid file, tracing, watcher, trend ticker)": "stub (left out)",
+	"listeners / TCP / TLS": "not exercised: requests are handed to the http.Handler of the *http.Server that startServers built",
+	"clock":                "simulated (verifclock rewrite of time.Now/Since/Until)",
+	"network (forward-auth call-outs, deliveries, DNS)": "simulated (simnet Transport + Resolver)",
+	"client side of every protocol":                      "stub (generated requests)",
+}
+
+func init() {
+	mem := []string{"memory", "sqlite"}
+	regI := func(prop string, prof IngressProfile, rule string, quick, thorough int) {
+		Register(&CheckSpec{
+			Prop: prop, World: "ingress",
+			Gen:        func(t *rapid.T) *Program { return GenIngressProgram(t, prof) },
+			Run:        RunIngressProgram,
+			NonTrivial: func(p *Program, r *Result) bool { return r.Ops >= 3 },
+			Rule:       rule + "; non-trivial = >=3 steps; distinct = distinct (step-kind sequence) shapes",
+			RealStub:   sysRealStub,
+			Quick:      quick, Thorough: thorough,
+		})
+	}
+	regI("C10", IngressProfile{Auth: []string{"none", "none", "basic"}, Channels: true, Match: true, MaxRoutes: 5, Backends: mem, Reload: true},
+		"generated configurations (1-5 routes, all three channel types, overlapping paths, match blocks) x generated requests (dot segments, trailing slashes, host case/port/trailing dot, v4/v6/v4-mapped remote addresses) through the real startServers wiring; oracle: independent resolver written from docs (first inbound route whose criteria all hold; 404 / 405+Allow), enqueued route/targets equal the resolved route's, no queue effect otherwise", 1500, 60000)
+	regI("C08", IngressProfile{Auth: []string{"basic", "hmac", "hmac", "forward"}, Match: false, Rotation: true, MaxRoutes: 3, Backends: mem, Fanout: true, Replay: true},
+		"routes with basic / HMAC (inline and rotating secret_ref versions, custom header names, tolerance) / forward auth; valid requests and systematic mutations (dropped/renamed headers, flipped signature bit, altered body/path/method, wrong or out-of-window secret, timestamps at tolerance +-{0,1s}), forward-auth service answering 2xx/401/403/other/hang/refused/reset; oracle: independent acceptance predicate -> status class, anything enqueued was authenticated, every rejection leaves the listing untouched", 1500, 60000)
+	regI("C09", IngressProfile{Auth: []string{"hmac"}, Replay: true, Reload: true, MaxRoutes: 2, Backends: mem},
+		"HMAC routes, small nonce pool, arrival times at and around the edges of [ts-tol, ts+tol] (clock on whole-second boundaries so that now == ts+tol is reached), invalid requests carrying the nonce first, config reloads between original and replay; oracle: per (route, nonce) at most one 202 during the life of the node", 1500, 60000)
+	regI("C12", IngressProfile{Auth: []string{"none", "none", "basic"}, Rate: true, Limits: true, MaxRoutes: 3, Backends: mem, Fanout: true, Reload: true},
+		"ingress part: bodies and header sets around max_body/max_headers (413), arrival-time sequences at route-level and global token-bucket limiters (window characterisation: admitted iff count <= burst + rps x window for every window; 429 otherwise; windows cut at reloads), queue_limits through ingress (503, partial fan-out keeps earlier copies); every refusal leaves the listing unchanged", 1500, 60000)
+	regI("C17", IngressProfile{Auth: []string{"hmac"}, Rotation: true, MaxRoutes: 2, Backends: mem},
+		"inbound part: secret_ref versions with validity windows (S1 valid until +1h exclusive, S2 valid from +30min inclusive); requests signed with each version at signed timestamps walked across the window boundaries; oracle: accepted iff signed with a version valid at the signed timestamp", 1200, 40000)
+}
